@@ -92,6 +92,43 @@ def skeleton(key, wlen=1):
     return ob
 
 
+PAIRS = [
+    ('{w1} DES:PAYROLL ID:88 {w2}', '{w1} DES:TAX ID:88 {w2}'),
+    ('{w1} SEATTLE WA', '{w1} #152 SEATTLE WA'),
+    ('{w1} {w2} 123456 X', '{w1} {w2} 98101'),
+    ('SQ *{w1} {w2}', '{w1} {w2}'),
+]
+
+
+def combined(i):
+    """Two Unknown descriptions (often with the same suggested merchant name) : after BOTH suggested rules are appended to one
+    rules file, each description is matched by a rule of that file - the Unknown list shrinks."""
+    t1, t2 = PAIRS[i]
+
+    def ob(w1: str, w2: str) -> bool:
+        """
+        pre: 1 <= len(w1) <= WLEN + 1 and 1 <= len(w2) <= WLEN and all(c in 'aB9' for c in w1 + w2)
+        post: _
+        """
+        import ast as _ast
+        from tally.commands.discover import suggest_pattern, suggest_merchant_name, suggest_merchants_rule
+        from tally.merchant_engine import parse_merchants, MerchantParseError
+        reset_tally_caches()
+        w1 = _ast.literal_eval(repr(w1))
+        w2 = _ast.literal_eval(repr(w2))
+        descs = [t.replace('{w1}', w1).replace('{w2}', w2) for t in (t1, t2)]
+        text = ''
+        for d in descs:
+            rule = suggest_merchants_rule(suggest_merchant_name(d), suggest_pattern(d))
+            text += rule.replace('category: CATEGORY', 'category: Food').replace('subcategory: SUBCATEGORY', 'subcategory: Sub') + '\n\n'
+        try:
+            eng = parse_merchants(text)
+        except MerchantParseError:
+            return post(False)
+        return post(all(eng.match({'description': d, 'amount': 1.0}).matched for d in descs))
+    return ob
+
+
 def obligations(tier, seed):
     q = tier == 'quick'
     obs = [Obligation(id='free', factory='free', params={'dlen': 2 if q else 3}, timeout=170 if q else 1500, group='free descriptions',
@@ -99,4 +136,7 @@ def obligations(tier, seed):
     for k in SKELETONS:
         obs.append(Obligation(id=f'skeleton-{k}', factory='skeleton', params={'key': k, 'wlen': 1 if q else 2}, timeout=170 if q else 1500, group='structured descriptions',
                               bounds=f'{SKELETONS[k]!r} with words of 1..{1 if q else 2} chars over a B 9 . *'))
+    for i in range(len(PAIRS)):
+        obs.append(Obligation(id=f'combined-{i}', factory='combined', params={'i': i}, timeout=170 if q else 900, group='suggestions written to one file',
+                              bounds=f'descriptions {PAIRS[i]!r} with words of 1-2 chars over a B 9; both suggested rules in one rules file'))
     return obs
